@@ -441,6 +441,44 @@ func runC15(c *Check) {
 				why = "the write of " + trunc(ArgTerm(pn, 1).String(), 60) + " is not behind a test that a key written by InitChain itself is absent from the datastore (a test on a stored value is not a marker: the genesis root of an empty chain is empty)"
 			}
 		}
+		// on an initialised chain the root handed back is the stored one: a returned value that is
+		// recomputed from the current contents changes once blocks were executed
+		{
+			nInit, badRet := 0, ""
+			for _, x := range g.Exits {
+				if g.ExitClass(x) == rcA {
+					continue
+				}
+				xx := x
+				present := false
+				for _, f := range g.NecessaryEdges(func(n *Node) bool { return n == xx }) {
+					ff := Fact{Cond: f.Cond, Pol: !f.Pol}
+					if k := absent(ff); k != "" && written[k] {
+						present = true
+					}
+				}
+				if !present {
+					continue
+				}
+				nInit++
+				t := TermOf(spilledResult(x.In.(*ssa.Return), 0), x.Ctx)
+				for _, leaf := range flattenPhi(t) {
+					l := leaf.unconv()
+					fromStore := l.Op == "extract" && l.Args[0].Op == "invoke" && strings.HasSuffix(l.Args[0].Name, ".Get") && len(l.Args[0].Args) >= 3 && written[keyName(l.Args[0].Args[2])]
+					if !fromStore {
+						badRet = trunc(l.String(), 80)
+					}
+				}
+			}
+			switch {
+			case nInit == 0:
+				c.Unk("C15-R4", "InitChain ⟂ initialised→stored-root", fnName(initc), "", "anchor lost: no success return of InitChain behind the marker being present")
+			case badRet == "":
+				c.OK("C15-R4", "InitChain ⟂ initialised→stored-root", fnName(initc), p.Pos(initc.Pos()), "on an initialised chain InitChain returns the root it stored at genesis", true)
+			default:
+				c.Bad("C15-R4", "InitChain ⟂ initialised→stored-root", fnName(initc), p.Pos(initc.Pos()), "on an initialised chain InitChain returns "+badRet+" instead of the root stored at genesis: called again after blocks were executed (a restart before the first state write) it reports the current root as the genesis root", nil)
+			}
+		}
 		if okAll {
 			c.OK("C15-R4", "InitChain ⟂ idempotent", fnName(initc), p.InstrPos(puts[0].In), "genesis keys are written only when a marker key that InitChain itself writes is absent", true)
 		} else if len(puts) > 0 {
@@ -450,5 +488,5 @@ func runC15(c *Check) {
 	c.MinInstances("C15-R1", 5)
 	c.MinInstances("C15-R2", 3)
 	c.MinInstances("C15-R3", 4)
-	c.MinInstances("C15-R4", 1)
+	c.MinInstances("C15-R4", 2)
 }
